@@ -526,6 +526,13 @@ where
                 // Notify leader change listeners
                 let current_term = self.role.current_term();
                 self.notify_leader_change(leader_id_option, current_term);
+                // Listeners were just told "no leader": forget the cached leader id too, so the
+                // next AppendEntries announces its sender again even when the vote kept above
+                // already names it (restarted node that turned candidate before the first
+                // heartbeat of its old leader arrived).
+                if leader_id_option.is_none() {
+                    self.role.state().shared_state().set_current_leader(0);
+                }
 
                 #[cfg(test)]
                 self.notify_role_transition();
